@@ -193,6 +193,44 @@ func checkList(t ev.TB, check string, c listCase) {
 			fail("RawTable(%#x) returns different bytes", tc.Tag)
 		}
 	}
+	// --- loading is a function of the bytes, not of where a previous load left the reader: the
+	// same reader is loaded again without rewinding it by hand (NewLoader twice, then NewLoaders,
+	// then NewLoader)
+	shared := bytes.NewReader(out)
+	for round, how := range []string{"NewLoader", "NewLoader", "NewLoaders", "NewLoader"} {
+		var l2 *ot.Loader
+		var err2 error
+		func() {
+			defer func() {
+				if r := recover(); r != nil {
+					fail("%s panicked on a reader already used by %d earlier loads: %v", how, round, r)
+				}
+			}()
+			if how == "NewLoaders" {
+				var ls []*ot.Loader
+				ls, err2 = ot.NewLoaders(shared)
+				if err2 == nil && len(ls) == 1 {
+					l2 = ls[0]
+				} else if err2 == nil {
+					err2 = fmt.Errorf("%d fonts", len(ls))
+				}
+			} else {
+				l2, err2 = ot.NewLoader(shared)
+			}
+		}()
+		if err2 != nil {
+			fail("%s on a reader already used by %d earlier loads fails: %v", how, round, err2)
+		}
+		if tg := l2.Tables(); len(tg) != n {
+			fail("%s on a reader already used by %d earlier loads: %d tables, want %d", how, round, len(tg), n)
+		}
+		for _, tc := range c.Tables {
+			got, err := l2.RawTable(ot.Tag(tc.Tag))
+			if err != nil || !bytes.Equal(got, tc.Content) {
+				fail("%s on a reader already used by %d earlier loads: RawTable(%#x): err=%v, %d bytes, want %d", how, round, tc.Tag, err, len(got), len(tc.Content))
+			}
+		}
+	}
 	// --- the other loading entry point: NewLoaders (fonts and collections) must see the written
 	// file as exactly one font with the same tags and contents
 	var lds []*ot.Loader
